@@ -151,6 +151,26 @@ where
     }
 }
 
+/// Read-only accessor used by the external verification harness (`--cfg crux_verif`).
+#[cfg(crux_verif)]
+impl<A> Core<A>
+where
+    A: App,
+{
+    /// (executor live tasks, executor ready queue, executor spawn queue,
+    /// pending effect requests, pending capability events), without running anything.
+    pub fn verif_stats(&self) -> (usize, usize, usize, usize, usize) {
+        let (tasks, ready, spawn) = self.executor.verif_stats();
+        (
+            tasks,
+            ready,
+            spawn,
+            self.requests.verif_len(),
+            self.capability_events.verif_len(),
+        )
+    }
+}
+
 impl<A> Default for Core<A>
 where
     A: App,
